@@ -50,7 +50,7 @@ func runC01(p *Program, e *Engine, r *Result, tier string) {
 			a.R.fail("anchor unresolved: the 'seen' table / the reader of the kqueue backend")
 			return
 		}
-		c18ReleaseClearsSeen(a, kf, seenT, a.Ro.Readers[0], "C01.9")
+		c18ReleaseClearsSeen(a, kf, seenT, a.Ro.Readers[0], "C01.10")
 		return
 	}
 	df := decodeFacts(a)
